@@ -1,6 +1,6 @@
 SPECIFICATION TSpec
 CONSTANTS
   MaxSid = 4
-  Props = {"C02","C03","C04","C05","C06","C07","C08","C09","C10","C11","C13","C14","C15"}
+  Props = {"C02","C03","C04","C05","C06","C07","C08","C09","C10","C11","C13","C14","C15","C17"}
 POSTCONDITION TraceAccepted
 CHECK_DEADLOCK FALSE
